@@ -5,6 +5,7 @@ open Scrapli.Loss
   map <t> <m> <o>                        -> act of errMap
   alive <t> <lm> <lo>                    -> act of aliveAfter
   seq <t> <opened 0|1> <m:o,m:o,...>     -> acts of the transport machine, comma separated (o = - : not scripted = default)
+  runc ... <ctrl 0|1|2>                  same as run, the Telnet control buffer starting in that state
   run <t> <opened 0|1> <prog> <T> <o,o,...|.> <read default> <write default>
                                          -> <out> <ticks> <calls> <isalive act> <out of a following get_prompt>
   total <t>                              -> <mapTotalB> <aliveTotalB>
@@ -53,7 +54,7 @@ def pSeq (s : String) : Option (List (Method × Option Outcome)) :=
         pure (m, some o)
     | _ => none
 
-def handleLine (line : String) : String :=
+partial def handleLine (line : String) : String :=
   match line.trimAscii.toString.splitOn " " with
   | ["map", t, m, o] =>
     match pT t, pM m, pO o with
@@ -61,7 +62,7 @@ def handleLine (line : String) : String :=
     | _, _, _ => "bad-op"
   | ["alive", t, m, o] =>
     match pT t, pM m, pO o with
-    | some t, some m, some o => showAct (aliveAfter t m o)
+    | some t, some m, some o => showAct (aliveAfter t .c0 m o)
     | _, _, _ => "bad-op"
   | ["total", t] =>
     match pT t with
@@ -69,13 +70,15 @@ def handleLine (line : String) : String :=
     | none => "bad-op"
   | ["seq", t, op, s] =>
     match pT t, pSeq s with
-    | some t, some l => ",".intercalate ((runSeq t ⟨op == "1", none⟩ l).map showAct)
+    | some t, some l => ",".intercalate ((runSeq t ⟨op == "1", none, .c0⟩ l).map showAct)
     | _, _ => "bad-op"
-  | ["run", t, op, prog, tt, outs, dr, dw] =>
+  | ["run", t, op, prog, tt, outs, dr, dw] => handleLine s!"runc {t} {op} {prog} {tt} {outs} {dr} {dw} 0"
+  | ["runc", t, op, prog, tt, outs, dr, dw, c] =>
     match pT t, pProg prog, tt.toNat?, pOutcomes outs, pO dr, pO dw with
     | some t, some p, some T, some l, some dr, some dw =>
       let env : Env := fun i m => if i < l.length then l.getD i dr else if m == .write then dw else dr
-      let r := run t env T p ⟨op == "1", none⟩
+      let cst : Ctrl := if c == "1" then .cIac else if c == "2" then .cIacVerb else .c0
+      let r := run t env T p ⟨op == "1", none, cst⟩
       let dr2 := match r.st.lossBy with
         | some (lm, lo) => (postRead t lm lo).headD lo
         | none => dr
